@@ -1,4 +1,4 @@
 SPECIFICATION BSpec
-CONSTANTS MaxChrom = 2  MaxUnits = 1  Kinds = {"edge", "snp", "inv"}  EndKinds = {"tip"}  Defects = {"branch", "branchalt", "join", "cycle3", "cycle3in"}  MaxDefects = 2  MinUnits = 0  Pattern <- NoPattern  Wholes = {}
+CONSTANTS MaxChrom = 2  MaxUnits = 1  Kinds = {"edge", "snp", "inv"}  EndKinds = {"tip"}  Defects = {"branch", "branchalt", "branchref", "join", "cycle3", "cycle3in"}  MaxDefects = 2  MinUnits = 0  Pattern <- NoPattern  Wholes = {}
 INVARIANT LexSanity
 CHECK_DEADLOCK FALSE
